@@ -21,7 +21,7 @@ func assumeEq(idx int, c string) func(st *State) {
 }
 
 func ruleCfgAddr(c *Ctx, rule string) {
-	fn := funcByName(c.P, "config", "getListenAddress") // method or plain function
+	fn := c.P.Anchor("getListenAddress") // method or plain function, whatever its current name
 	if fn == nil {
 		c.R.Fatalf("ANCHOR-UNRESOLVED: config.getListenAddress")
 		return
@@ -51,7 +51,7 @@ func ruleCfgAddr(c *Ctx, rule string) {
 	}
 	wantPort := map[string]string{"4": c.P.mustConst(c.R, pkgDHCP4, "ServerPort"), "6": c.P.mustConst(c.R, pkgDHCP6, "DefaultServerPort")}
 	wantIP := map[string]string{"4": "net.IPv4zero", "6": "net.IPv6unspecified"}
-	split := `github\.com/coredhcp/coredhcp/config\.splitHostPort(@(?:[\w$]+·)?t\d+)?\(` + pa + `\)`
+	split := `github\.com/coredhcp/coredhcp/config\.` + an("splitHostPort") + `(@(?:[\w$]+·)?t\d+)?\(` + pa + `\)`
 	for _, ver := range []string{"4", "6"} {
 		ex := NewExplorer(c.P, c.Pure, fn)
 		ex.Hooks.Assume = assumeEq(vi, ver)
@@ -74,7 +74,7 @@ func ruleCfgAddr(c *Ctx, rule string) {
 			to4Nil, _ := histFact(st, "nil", regexp.MustCompile(`^\(net\.IP\)\.To4\(net\.ParseIP\(`+split+`#0\)\)$`))
 			atoiOK, _ := histFact(st, "nil", regexp.MustCompile(`^strconv\.Atoi\(`+split+`#2\)#1$`))
 			errN, _ := ex.NilState(st, ret.Results[1])
-			if v, _ := histFact(st, "nil", regexp.MustCompile(`protoVersionCheck(@(?:[\w$]+·)?t\d+)?\(`+pv+`\)$`)); v == 0 {
+			if v, _ := histFact(st, "nil", regexp.MustCompile(an("protoVersionCheck")+`(@(?:[\w$]+·)?t\d+)?\(`+pv+`\)$`)); v == 0 {
 				return // version sanity check (dead for ver ∈ {4,6})
 			}
 			desc := fmt.Sprintf("ver=%s host-empty=%s port-empty=%s split-ok=%s parse-nil=%s to4-nil=%s atoi-ok=%s", ver, tri(hostEmpty), tri(portEmpty), tri(splitOK), tri(parseNil), tri(to4Nil), tri(atoiOK))
@@ -166,7 +166,7 @@ func ruleCfgAddr(c *Ctx, rule string) {
 }
 
 func ruleCfgListen(c *Ctx, rule string) {
-	fn := c.P.Func("config", "*Config", "parseListen")
+	fn := c.P.Anchor("parseListen")
 	if fn == nil {
 		c.R.Fatalf("ANCHOR-UNRESOLVED: config.(*Config).parseListen")
 		return
@@ -195,7 +195,7 @@ func ruleCfgListen(c *Ctx, rule string) {
 			if bi, ok := call.Call.Value.(*ssa.Builtin); ok && bi.Name() == "append" {
 				appends = append(appends, call)
 			}
-			if f := call.Call.StaticCallee(); f != nil && f.Name() == "getListenAddress" {
+			if f := call.Call.StaticCallee(); f != nil && isAnchor(f, "getListenAddress") {
 				glaCall = call
 			}
 		}
@@ -276,11 +276,11 @@ func ruleCfgListen(c *Ctx, rule string) {
 		listenNN = not3(listenNN)
 		both := and3(ifaceNN, listenNN)
 		errN, _ := ex.NilState(st, ret.Results[1])
-		if v, _ := histFact(st, "nil", regexp.MustCompile(`protoVersionCheck\(\$1\)$`)); v == 0 {
+		if v, _ := histFact(st, "nil", regexp.MustCompile(an("protoVersionCheck")+`\(\$1\)$`)); v == 0 {
 			return
 		}
 		r0 := ex.Canon(st, ret.Results[0]).S
-		isDefault := regexp.MustCompile(`config\.defaultListen(@(?:[\w$]+·)?t\d+)?\(\$1\)#0$`).MatchString(r0)
+		isDefault := regexp.MustCompile(`config\.` + an("defaultListen") + `(@(?:[\w$]+·)?t\d+)?\(\$1\)#0$`).MatchString(r0)
 		switch {
 		case errN == 0 && both == 1 && !st.seen["gla"] && !st.seen["append"]:
 			nConflict++
@@ -330,9 +330,9 @@ func ruleCfgListen(c *Ctx, rule string) {
 
 func ruleCfgPlugins(c *Ctx, rule string) {
 	// getPlugins: nil list => error; otherwise parsePlugins(list)
-	gp := c.P.Func("config", "*Config", "getPlugins")
+	gp := c.P.Anchor("getPlugins")
 	ld := c.P.Func("config", "", "Load")
-	pc := c.P.Func("config", "*Config", "parseConfig")
+	pc := c.P.Anchor("parseConfig")
 	if gp == nil || ld == nil || pc == nil {
 		c.R.Fatalf("ANCHOR-UNRESOLVED: config getPlugins/Load/parseConfig")
 		return
@@ -347,10 +347,10 @@ func ruleCfgPlugins(c *Ctx, rule string) {
 		for _, e := range exits {
 			listNil, _ := histFact(e.St, "nil", regexp.MustCompile(`^github\.com/spf13/cast\.ToSlice(@(?:[\w$]+·)?t\d+)?\(\(\*github\.com/spf13/viper\.Viper\)\.Get@(?:[\w$]+·)?t\d+\(\$0\.v,fmt\.Sprintf\("server%d\.plugins",`))
 			errN, _ := e.Ex.NilState(e.St, e.Ret.Results[1])
-			if v, _ := histFact(e.St, "nil", regexp.MustCompile(`protoVersionCheck\(\$1\)$`)); v == 0 {
+			if v, _ := histFact(e.St, "nil", regexp.MustCompile(an("protoVersionCheck")+`\(\$1\)$`)); v == 0 {
 				continue
 			}
-			if regexp.MustCompile(`config\.parsePlugins(@(?:[\w$]+·)?t\d+)?\(.*ToSlice`).MatchString(e.Canon[0]) {
+			if regexp.MustCompile(`config\.` + an("parsePlugins") + `(@(?:[\w$]+·)?t\d+)?\(.*ToSlice`).MatchString(e.Canon[0]) {
 				nS++
 				if listNil != 0 {
 					bad = append(bad, "plugins are parsed although the `plugins` value is missing or not a list")
@@ -387,7 +387,7 @@ func ruleCfgPlugins(c *Ctx, rule string) {
 				// every parseConfig call on the path succeeded (per-iteration facts of a loop form are checked at the back edge below)
 				for _, k := range sortedKeys(e.St.hist) {
 					f := e.St.hist[k]
-					if f.Kind == "nil" && regexp.MustCompile(`parseConfig@(?:[\w$]+·)?t\d+\(.*\)$`).MatchString(f.X) && !f.Val {
+					if f.Kind == "nil" && regexp.MustCompile(an("parseConfig")+`@(?:[\w$]+·)?t\d+\(.*\)$`).MatchString(f.X) && !f.Val {
 						bad = append(bad, "Load succeeds although a parseConfig call failed")
 					}
 				}
@@ -446,10 +446,10 @@ func ruleCfgPlugins(c *Ctx, rule string) {
 						if al, ok := s.Val.(*ssa.Alloc); ok {
 							pl, _ := st.ReadLocal("new@" + anm(al) + ".Plugins")
 							ad, _ := st.ReadLocal("new@" + anm(al) + ".Addresses")
-							if !regexp.MustCompile(`getPlugins(@(?:[\w$]+·)?t\d+)?\(\$0,\$1\)#0$`).MatchString(pl) {
+							if !regexp.MustCompile(an("getPlugins") + `(@(?:[\w$]+·)?t\d+)?\(\$0,\$1\)#0$`).MatchString(pl) {
 								bad = append(bad, "ServerConfig.Plugins is not getPlugins(ver)'s result: "+shortName(pl))
 							}
-							if !regexp.MustCompile(`parseListen(@(?:[\w$]+·)?t\d+)?\(\$0,\$1\)#0$`).MatchString(ad) {
+							if !regexp.MustCompile(an("parseListen") + `(@(?:[\w$]+·)?t\d+)?\(\$0,\$1\)#0$`).MatchString(ad) {
 								bad = append(bad, "ServerConfig.Addresses is not parseListen(ver)'s result: "+shortName(ad))
 							}
 						}
